@@ -11,9 +11,9 @@ import json, os, subprocess, sys
 from concurrent.futures import ThreadPoolExecutor
 from pathlib import Path
 V = Path(__file__).resolve().parent.parent
-RELATED = {"C01": "C01,C12,C03", "C02": "C02,C15", "C03": "C03,C01,C12", "C04": "C04,C03,C17", "C05": "C05,C17,C16", "C06": "C06,C16",
-           "C07": "C07,C01", "C08": "C08,C03", "C09": "C09,C10", "C10": "C10,C09", "C11": "C11,C01", "C12": "C12,C01", "C13": "C13,C10",
-           "C14": "C14,C18", "C15": "C15,C02", "C16": "C16,C05", "C17": "C17,C04,C05", "C18": "C18,C14", "C19": "C19,C01"}
+RELATED = {"C01": "C01,C12,C03", "C02": "C02,C15", "C03": "C03,C01,C12,C05", "C04": "C04,C03,C17", "C05": "C05,C17,C16", "C06": "C06,C16",
+           "C07": "C07,C01", "C08": "C08,C03", "C09": "C09,C10", "C10": "C10,C09", "C11": "C11,C01", "C12": "C12,C01,C04", "C13": "C13,C10",
+           "C14": "C14,C18", "C15": "C15,C02", "C16": "C16,C05,C04", "C17": "C17,C04,C05", "C18": "C18,C14", "C19": "C19,C01,C13"}
 
 
 def one(job):
@@ -22,7 +22,16 @@ def one(job):
     sid = f"{pid}-{letter}"
     if not all((d / f).exists() for f in ("patch.diff", "demo.py", "meta.json")):
         return f"{sid}: incomplete ({sorted(p.name for p in d.glob('*'))})"
-    c = subprocess.run([sys.executable, str(V / "tools" / "seedconfirm.py"), str(d)], capture_output=True, text=True)
+    prev = None
+    if (d / "confirm.json").exists() and os.environ.get("SEEDBATCH_RECONFIRM") != "1":
+        try:
+            prev = json.loads((d / "confirm.json").read_text())
+        except ValueError:
+            prev = None
+    if prev and prev.get("tests") and prev.get("failed_not_in_baseline_always_fail") == []:
+        c = subprocess.CompletedProcess([], 0, "", "")          # confirmed earlier in this round (same patch)
+    else:
+        c = subprocess.run([sys.executable, str(V / "tools" / "seedconfirm.py"), str(d)], capture_output=True, text=True)
     if c.returncode != 0:
         return f"{sid}: NOT CONFIRMED (existing tests) {c.stdout.strip()[-400:]}"
     k = subprocess.run([sys.executable, str(V / "tools" / "seedkeep.py"), str(d), sid, "--props", RELATED[pid], "--from-head"],
